@@ -554,6 +554,7 @@ func runHistory(prop, id string, c mcfg, ops []mop) {
 	}
 	defer mn.m.Shutdown()
 	var sb strings.Builder
+	countOff := 0 // steps after which NumMembers() differs from len(Members())
 	fmt.Fprintf(&sb, "%s hist id=%s cfg=%s allowed=%s init=%s ops=", prop, id, c, mn.allowedCodes(), mn.observe(time.Now()))
 	for i, o := range ops {
 		if i > 0 {
@@ -573,6 +574,12 @@ func runHistory(prop, id string, c mcfg, ops []mop) {
 			break
 		}
 		fmt.Fprintf(&sb, "%s>%s", tok, mn.observe(start))
+		if mn.m.NumMembers() != len(mn.m.Members()) {
+			countOff++
+		}
+	}
+	if countOff > 0 {
+		fmt.Fprintf(&sb, " nummembers=%d", countOff)
 	}
 	emit("%s", sb.String())
 }
